@@ -22,9 +22,7 @@ inline std::string jver(yakushima::node_version64_body v) {
     return o.str();
 }
 inline const char* stname(yakushima::status s) {
-    static thread_local std::string buf;
-    buf = std::string(yakushima::to_string_view(s));
-    return buf.c_str();
+    return yakushima::to_string_view(s).data();   // string literals: null terminated, no shared buffer
 }
 inline const char* epname(yakushima::scan_endpoint e) {
     switch (e) { case yakushima::scan_endpoint::EXCLUSIVE: return "EXC"; case yakushima::scan_endpoint::INCLUSIVE: return "INC"; default: return "INF"; }
